@@ -37,11 +37,11 @@ TIME_BUDGET = 20
 QUICK_SEEDS = ['ot-parts-0', 'ot-text-3', 'ot-text-4', 'ot-oid-3', 'ot-index-v1-1', 'type-22', 'tc-255a-RFC 1-1',
                'choice-1', 'macro-1-0', 'macro-0-3', 'exports-imp-1', 'imports-2', 'module-oid-1', 'oi-RFC 2',
                'nt-RFC 2-2', 'og-None-2', 'ng-RFC 2-3', 'trap-2-True-True', 'mi-2-2', 'mc-multi-2', 'ac-3-True',
-               'two-modules', 'three-modules', 'table', 'ot-text-7', 'macro-3-0', 'exports-3', 'choice-4']
+               'two-modules', 'three-modules', 'table', 'ot-text-7', 'macro-3-0', 'exports-3', 'choice-4', 'imports-5']
 MORE_SEEDS = ['ot-parts-%d' % i for i in (3, 9, 17, 25, 33, 41)] + \
              ['ot-syntax-%d' % i for i in (2, 5, 6, 9, 13, 16, 20, 21, 30, 36, 44, 50)] + \
              ['type-%d' % i for i in (60, 61, 62, 63)] + ['type-smi-0', 'choice-3', 'macro-2-0', 'exports-1',
-                                                          'imports-3', 'imports-5', 'empty-module', 'mi-shortdate',
+                                                          'imports-3', 'empty-module', 'mi-shortdate',
                                                           'mi-0-None', 'mc-7', 'mc-multi-0', 'ac-0-False', 'ac-2-True',
                                                           'value-name-3', 'value-name-4']
 
